@@ -10,6 +10,16 @@ func specSizeOK(size int, lower int, upper int) bool {
 	return lower <= size && (upper == -1 || size <= upper)
 }
 
+// Shape of the tokens the lexer emits, as far as the parser relies on it (assumed through the trusted contract of peek;
+// the lexer contracts state the same facts where they are within reach).
+//@ predicate tokWF(typ int, val string) = (typ == tokenTypeStreamFunction ==> len(val) >= 4 && val[0] == 'S' && 2 <= str_index(val, "F") && str_index(val, "F") <= len(val) - 2)
+//@   && (typ == tokenTypeDataItemSize ==> len(val) >= 3 && (str_index(val, "..") == -1 || (1 <= str_index(val, "..") && str_index(val, "..") <= len(val) - 3)))
+//@   && (typ == tokenTypeQuotedString ==> len(val) >= 2)
+//@   && (typ == tokenTypeMessageName ==> !has_space_rune(val))
+//@   && (typ == tokenTypeDirection ==> val == "H->E" || val == "H<-E" || val == "H<->E")
+//@   && (typ == tokenTypeWaitBit ==> val == "W" || val == "[W]")
+//@   && (typ == tokenTypeDataItemType ==> val == "L" || val == "A" || val == "B" || val == "BOOLEAN" || val == "F4" || val == "F8" || val == "I1" || val == "I2" || val == "I4" || val == "I8" || val == "U1" || val == "U2" || val == "U4" || val == "U8")
+
 //@ func (*parser).errorf
 //@   property C05 C06 C15
 //@   owns sml.parser, sml.parseError
@@ -29,7 +39,7 @@ func specSizeOK(size int, lower int, upper int) bool {
 //@   trusted
 //@   owns sml.parser, sml.lexer, sml.token
 //@   modifies p.tokenQueue, p.tokenQueue[0], p.lexer
-//@   ensures len(p.tokenQueue) >= 1 && result == p.tokenQueue[0] && result.typ != tokenTypeComment
+//@   ensures len(p.tokenQueue) >= 1 && result == p.tokenQueue[0] && result.typ != tokenTypeComment && tokWF(result.typ, result.val)
 //@   ensures old(len(p.tokenQueue)) >= 1 ==> p.tokenQueue == old(p.tokenQueue) && result == old(p.tokenQueue[0])
 //@   ensures ref(p.tokenQueue) == old(ref(p.tokenQueue)) || fresh(p.tokenQueue)
 
@@ -37,7 +47,7 @@ func specSizeOK(size int, lower int, upper int) bool {
 //@   property C06
 //@   owns sml.parser, sml.lexer, sml.token
 //@   modifies p.tokenQueue, p.tokenQueue[0], p.lexer
-//@   ensures result.typ != tokenTypeComment
+//@   ensures result.typ != tokenTypeComment && tokWF(result.typ, result.val)
 //@   ensures old(len(p.tokenQueue)) >= 1 ==> result == old(p.tokenQueue[0])
 //@   ensures ref(p.tokenQueue) == old(ref(p.tokenQueue)) || fresh(p.tokenQueue)
 
@@ -45,7 +55,7 @@ func specSizeOK(size int, lower int, upper int) bool {
 //@   property C06
 //@   owns sml.parser, sml.lexer, sml.token
 //@   modifies p.tokenQueue, p.tokenQueue[0], p.lexer
-//@   ensures ok == (t.typ == typ) && t.typ != tokenTypeComment
+//@   ensures ok == (t.typ == typ) && t.typ != tokenTypeComment && tokWF(t.typ, t.val)
 //@   ensures ref(p.tokenQueue) == old(ref(p.tokenQueue)) || fresh(p.tokenQueue)
 
 //@ func (*parser).checkDataItemSizeError
@@ -73,6 +83,9 @@ func specSizeOK(size int, lower int, upper int) bool {
 //@   requires specIsIntW(byteSize)
 //@   let e0 = old(len(p.errors))
 //@   ensures ok && len(p.errors) == e0 ==> typeis(item, *IntNode) && cast(item, *IntNode).byteSize == byteSize
+//@   ensures len(p.errors) >= e0
+//@   ensures !ok ==> len(p.errors) > e0
+//@   ensures item != nil
 //@   loop 1
 //@     invariant 0 <= rangeindex+1 && rangeindex+1 <= len(rangeover) && fresh(values) && fresh(rangeover) && len(values) == rangeindex+1 && e0 <= len(p.errors)
 //@     invariant len(p.errors) == e0 ==> forall k int :: 0 <= k && k <= rangeindex && rangeover[k].typ == tokenTypeNumber ==> parse_ok(rangeover[k].val, 0, byteSize*8, 1) && isint(values[k]) && ival(values[k]) == parse_val(rangeover[k].val, 0, byteSize*8, 1)
@@ -87,6 +100,9 @@ func specSizeOK(size int, lower int, upper int) bool {
 //@   requires specIsIntW(byteSize)
 //@   let e0 = old(len(p.errors))
 //@   ensures ok && len(p.errors) == e0 ==> typeis(item, *UintNode) && cast(item, *UintNode).byteSize == byteSize
+//@   ensures len(p.errors) >= e0
+//@   ensures !ok ==> len(p.errors) > e0
+//@   ensures item != nil
 //@   loop 1
 //@     invariant 0 <= rangeindex+1 && rangeindex+1 <= len(rangeover) && fresh(values) && fresh(rangeover) && len(values) == rangeindex+1 && e0 <= len(p.errors)
 //@     invariant len(p.errors) == e0 ==> forall k int :: 0 <= k && k <= rangeindex && rangeover[k].typ == tokenTypeNumber ==> parse_ok(rangeover[k].val, 0, byteSize*8, 0) && isint(values[k]) && ival(values[k]) == parse_val(rangeover[k].val, 0, byteSize*8, 0)
@@ -101,6 +117,9 @@ func specSizeOK(size int, lower int, upper int) bool {
 //@   requires specIsFloatW(byteSize)
 //@   let e0 = old(len(p.errors))
 //@   ensures ok && len(p.errors) == e0 ==> typeis(item, *FloatNode) && cast(item, *FloatNode).byteSize == byteSize
+//@   ensures len(p.errors) >= e0
+//@   ensures !ok ==> len(p.errors) > e0
+//@   ensures item != nil
 //@   loop 1
 //@     invariant 0 <= rangeindex+1 && rangeindex+1 <= len(rangeover) && fresh(values) && fresh(rangeover) && len(values) == rangeindex+1 && e0 <= len(p.errors)
 //@     invariant len(p.errors) == e0 ==> forall k int :: 0 <= k && k <= rangeindex && rangeover[k].typ == tokenTypeNumber ==> parsef_ok(rangeover[k].val, byteSize*8) && isfloat(values[k]) && fval(values[k]) == parsef_val(rangeover[k].val, byteSize*8)
@@ -114,6 +133,9 @@ func specSizeOK(size int, lower int, upper int) bool {
 //@   modifies p.tokenQueue, p.tokenQueue[0], p.lexer, p.errors, p.errors[0], p.variableNames
 //@   let e0 = old(len(p.errors))
 //@   ensures ok && len(p.errors) == e0 ==> typeis(item, *BinaryNode)
+//@   ensures len(p.errors) >= e0
+//@   ensures !ok ==> len(p.errors) > e0
+//@   ensures item != nil
 //@   loop 1
 //@     invariant 0 <= rangeindex+1 && rangeindex+1 <= len(rangeover) && fresh(values) && fresh(rangeover) && len(values) == rangeindex+1 && e0 <= len(p.errors)
 //@     invariant len(p.errors) == e0 ==> forall k int :: 0 <= k && k <= rangeindex && rangeover[k].typ == tokenTypeNumber ==> parse_ok(rangeover[k].val, 0, 0, 1) && typeis(values[k], int) && ival(values[k]) == parse_val(rangeover[k].val, 0, 0, 1) && 0 <= ival(values[k]) && ival(values[k]) < 256
@@ -127,8 +149,108 @@ func specSizeOK(size int, lower int, upper int) bool {
 //@   modifies p.tokenQueue, p.tokenQueue[0], p.lexer, p.errors, p.errors[0], p.variableNames
 //@   let e0 = old(len(p.errors))
 //@   ensures ok && len(p.errors) == e0 ==> typeis(item, *BooleanNode)
+//@   ensures len(p.errors) >= e0
+//@   ensures !ok ==> len(p.errors) > e0
+//@   ensures item != nil
 //@   loop 1
 //@     invariant 0 <= rangeindex+1 && rangeindex+1 <= len(rangeover) && fresh(values) && fresh(rangeover) && len(values) == rangeindex+1 && e0 <= len(p.errors)
 //@     invariant len(p.errors) == e0 ==> forall k int :: 0 <= k && k <= rangeindex && rangeover[k].typ == tokenTypeBool ==> typeis(values[k], bool) && bval(values[k]) == (rangeover[k].val == "T")
 //@     invariant len(p.errors) == e0 ==> forall k int :: 0 <= k && k <= rangeindex && rangeover[k].typ == tokenTypeVariable ==> typeis(values[k], string) && sval(values[k]) == rangeover[k].val
 //@     invariant len(p.errors) == e0 ==> forall k int :: 0 <= k && k <= rangeindex ==> rangeover[k].typ == tokenTypeBool || rangeover[k].typ == tokenTypeVariable
+
+//@ func (*parser).parseStreamFunctionCode
+//@   property C06
+//@   owns sml.parser, sml.lexer, sml.token, sml.parseError
+//@   modifies p.tokenQueue, p.lexer, p.errors
+//@   ensures ok ==> 0 <= stream && stream < 128 && 0 <= function && function < 256
+//@   ensures !ok ==> len(p.errors) > old(len(p.errors))
+//@   ensures len(p.errors) >= old(len(p.errors))
+
+//@ func (*parser).parseDataItemSize
+//@   property C15 C06
+//@   owns sml.parser, sml.lexer, sml.token, sml.parseError
+//@   modifies p.tokenQueue, p.lexer
+//@   let v = result.val
+//@   let i = str_index(v, "..")
+//@   ensures result.typ == tokenTypeDataItemSize && i == -1 ==> result1 == result2
+//@   ensures result.typ == tokenTypeDataItemSize && i == -1 && parse_ok(substr(v, 1, len(v)-1), 10, 0, 1) ==> result1 == parse_val(substr(v, 1, len(v)-1), 10, 0, 1)
+//@   ensures result.typ == tokenTypeDataItemSize && i >= 0 && parse_ok(substr(v, 1, i), 10, 0, 1) ==> result1 == parse_val(substr(v, 1, i), 10, 0, 1)
+//@   ensures result.typ == tokenTypeDataItemSize && i >= 0 && parse_ok(substr(v, i+2, len(v)-1), 10, 0, 1) ==> result2 == parse_val(substr(v, i+2, len(v)-1), 10, 0, 1)
+//@   ensures result.typ == tokenTypeDataItemSize && i >= 0 && !parse_ok(substr(v, i+2, len(v)-1), 10, 0, 1) && !parse_range(substr(v, i+2, len(v)-1), 10, 0, 1) ==> result2 == -1
+//@   ensures result.typ != tokenTypeDataItemSize ==> result1 == 0 && result2 == -1
+
+//@ func (*parser).parseASCII
+//@   property C05 C15
+//@   owns sml.parser, sml.lexer, sml.token, sml.parseError
+//@   maypanic
+//@   modifies p.tokenQueue, p.lexer, p.errors, p.variableNames, p.skipSizeCheck
+//@   let e0 = old(len(p.errors))
+//@   ensures !ok ==> len(p.errors) > e0
+//@   ensures len(p.errors) >= e0
+//@   ensures ok && len(p.errors) == e0 ==> typeis(item, *ASCIINode)
+//@   ensures item != nil
+//@   ensures ok && len(p.errors) == e0 && !cast(item, *ASCIINode).isValue ==> cast(item, *ASCIINode).variable.minLength == minLength && cast(item, *ASCIINode).variable.maxLength == maxLength
+//@   loop 1
+//@     invariant 0 <= rangeindex+1 && rangeindex+1 <= len(rangeover) && fresh(rangeover) && e0 <= len(p.errors)
+//@     invariant len(p.errors) == e0 ==> forall k int :: 0 <= k && k <= rangeindex && rangeover[k].typ == tokenTypeNumber ==> parse_ok(rangeover[k].val, 0, 0, 0) && parse_val(rangeover[k].val, 0, 0, 0) <= 127
+//@     invariant len(p.errors) == e0 ==> forall k int :: 0 <= k && k <= rangeindex ==> rangeover[k].typ == tokenTypeNumber || rangeover[k].typ == tokenTypeQuotedString
+//@   loop 2
+//@     invariant e0 <= len(p.errors) && 0 <= iterpos
+
+//@ func (*parser).parseList
+//@   property C05 C06
+//@   owns sml.parser, sml.lexer, sml.token, sml.parseError, map[string]bool
+//@   maypanic
+//@   modifies p.tokenQueue, p.lexer, p.errors, p.warnings, p.variableNames, p.ellipsisCount, p.skipSizeCheck
+//@   let e0 = old(len(p.errors))
+//@   ensures !ok ==> len(p.errors) > e0
+//@   ensures len(p.errors) >= e0
+//@   ensures item != nil
+//@   loop 1
+//@     invariant e0 <= len(p.errors) && fresh(values)
+
+//@ func (*parser).parseDataItem
+//@   property C05 C06 C15
+//@   recover
+//@   owns sml.parser, sml.lexer, sml.token, sml.parseError
+//@   modifies p.tokenQueue, p.lexer, p.errors, p.warnings, p.variableNames, p.ellipsisCount, p.skipSizeCheck
+//@   panic_invariant len(p.errors) >= old(len(p.errors))
+//@   let e0 = old(len(p.errors))
+//@   ensures !ok ==> len(p.errors) > e0
+//@   ensures len(p.errors) >= e0
+//@   ensures item != nil
+
+//@ func (*parser).parseMessageText
+//@   property C06
+//@   owns sml.parser, sml.lexer, sml.token, sml.parseError
+//@   modifies p.tokenQueue, p.lexer, p.errors, p.warnings, p.variableNames, p.ellipsisCount, p.skipSizeCheck
+//@   ensures !ok ==> len(p.errors) > old(len(p.errors))
+//@   ensures len(p.errors) >= old(len(p.errors))
+//@   ensures item != nil
+
+//@ func (*parser).parseMessage
+//@   property C06 C19
+//@   owns sml.parser, sml.lexer, sml.token, sml.parseError
+//@   modifies p.tokenQueue, p.lexer, p.errors, p.warnings, p.variableNames, p.ellipsisCount, p.skipSizeCheck, p.messages
+//@   reset_first p.variableNames, p.ellipsisCount
+//@   ensures !ok ==> len(p.errors) > old(len(p.errors)) && len(p.messages) == old(len(p.messages))
+//@   ensures ok ==> len(p.messages) == old(len(p.messages)) + 1
+//@   ensures len(p.errors) >= old(len(p.errors))
+//@   ensures forall k int :: 0 <= k && k < old(len(p.messages)) ==> p.messages[k] == old(p.messages[k])
+//@   ensures ref(p.messages) == old(ref(p.messages)) || fresh(p.messages)
+
+//@ func (*parseError).string
+//@   property C06
+//@   ensures true
+
+//@ func Parse
+//@   property C06 C19 C11
+//@   owns sml.parser, sml.lexer, sml.token, sml.parseError, map[string]bool
+//@   ensures len(errors) > 0 ==> len(messages) == 0
+//@   ensures fresh(errors) && fresh(warnings)
+//@   loop 1
+//@     invariant fresh(p) && fresh(p.messages)
+//@   loop 2
+//@     invariant fresh(errors) && 0 <= rangeindex+1 && len(errors) == rangeindex+1 && rangeindex+1 <= len(rangeover) && len(rangeover) == len(p.errors) && fresh(p.messages)
+//@   loop 3
+//@     invariant fresh(warnings) && fresh(errors) && 0 <= rangeindex+1 && rangeindex+1 <= len(rangeover) && len(errors) == len(p.errors) && fresh(p.messages)
